@@ -3,7 +3,7 @@ MONTH-TABLE."""
 import re
 from . import mir
 from .absint import ranged_bounds
-from .term import Terms, walk
+from .term import Terms, walk, alts
 from .rusttok import tokenize
 from .e1 import src_line
 from . import contracts as C
@@ -208,3 +208,56 @@ def req_dep(rep, prog, rule="REQ-DEP"):
         else:
             rep.violation(rule, key, "none of the %d branch conditions of to_timestamp depends on the `offset` parameter: the sign "
                           "normalisation of (second, nanosecond) is decided before the offset is applied" % nsw, f.loc())
+
+
+def split_pipeline(rep, prog, rule="SPLIT"):
+    """ITimestamp::to_datetime decomposes floor-divided (t + o)."""
+    from .term import is_call, show
+    rep.rule(rule, "ITimestamp::to_datetime splits the single sum `self.second + offset.second` with one div_euclid(86_400) (epoch day) "
+                   "and one rem_euclid(86_400) (second of day): the civil datetime is the decomposition of floor-divided (t + o); "
+                   "the epoch day handed to IEpochDay::to_date derives from that quotient and the time of day from that remainder")
+    for crate in ("jiff", "jiff_static"):
+        f = prog.fns.get(crate + "::shared::util::itime::ITimestamp::to_datetime")
+        if f is None:
+            if crate in prog.crates:
+                rep.anchor_missing(crate + " ITimestamp::to_datetime")
+            continue
+        T = Terms(f)
+        divs, rems = [], []
+        for bi, t in mir.iter_calls(f):
+            if t.get("path") == "core::num::<impl i64>::div_euclid":
+                divs.append((T.at_call(bi, t, 0), T.at_call(bi, t, 1)))
+            if t.get("path") == "core::num::<impl i64>::rem_euclid":
+                rems.append((T.at_call(bi, t, 0), T.at_call(bi, t, 1)))
+        key = crate + " ITimestamp::to_datetime"
+        ok = len(divs) == 1 and len(rems) == 1 and divs[0] == rems[0] and divs[0][1] == ("const", 86400)
+        sum_ok = False
+        if ok:
+            s = divs[0][0]
+            leaves = [x for x in walk(s) if isinstance(x, tuple) and x and x[0] == "field"]
+            has_ts = any(x[2] == "second" and x[1][0] == "param" and x[1][1] == 1 for x in leaves)
+            has_off = any(x[2] == "second" and x[1][0] == "param" and x[1][1] == 2 for x in leaves)
+            adds = [x for x in walk(s) if isinstance(x, tuple) and x and x[0] == "bin" and x[1].startswith("Add")]
+            sum_ok = has_ts and has_off and len(adds) == 1
+        flows = False
+        if ok and sum_ok:
+            day_ok = time_ok = False
+            for bi, b in enumerate(f.blocks):
+                for si, s in enumerate(b["st"]):
+                    if s["s"] == "=" and s["rv"]["k"] == "agg":
+                        adt = s["rv"].get("adt", "")
+                        if adt.endswith("itime::IEpochDay"):
+                            tt = T.rvalue(s["rv"], 0, (bi, si))
+                            day_ok = all(any(is_call(x, "div_euclid") for x in walk(a)) for a in alts(dict(tt[3])["epoch_day"]))
+                        if adt.endswith("itime::ITimeSecond"):
+                            tt = T.rvalue(s["rv"], 0, (bi, si))
+                            sec = dict(tt[3])["second"]
+                            inner = sec[1] if sec[0] == "cast" else sec
+                            time_ok = all(any(is_call(x, "rem_euclid") for x in walk(a)) for a in alts(inner))
+            flows = day_ok and time_ok
+        if ok and sum_ok and flows:
+            rep.ok(rule, key, how="div_euclid/rem_euclid of %s" % show(divs[0][0], maxd=4))
+        else:
+            rep.violation(rule, key, "shape not recognised: div_euclid calls %d, rem_euclid calls %d, same operand and 86400: %s, operand is "
+                          "the sum of the instant's and the offset's seconds: %s, quotient/remainder reach IEpochDay/ITimeSecond on every path: %s"
+                          % (len(divs), len(rems), ok, sum_ok, flows), f.loc())
